@@ -356,7 +356,9 @@ def main():
 
     covers = sum((kani_res.get(h) or {}).get('covers_satisfied', 0) for h in harnesses)
     wall = time.time() - t0
-    n_known = sum(1 for v in violations if v.get('known_finding'))
+    # a function with several failing clauses is one undischarged function query; every failed Kani check counts
+    n_known = len(set((v['backend'], v.get('function') if v['backend'] == 'verus' else v['obligation'])
+                      for v in violations if v.get('known_finding')))
     # obligations covered by a listed known finding are reported separately, not as discharged
     obligations = fn_total + kani_checks - n_known
     discharged = fn_ok + kani_ok
